@@ -74,17 +74,37 @@ def search(big=False):
                     return n, dict(source=src, cls=cls.__name__, what=bad)
             if dt > 2.0:
                 return n, dict(source=src, cls=cls.__name__, what='compiling took %.1fs' % dt)
-    # nesting depth and length: polynomial time (HTML syntax)
-    last = None
-    for depth in (20, 40, 80):
-        src = '<dtml-if a>x' * depth + '</dtml-if>' * depth
-        n += 1
-        e, dt = compile_(HTML, src)
-        if e is not None:
-            return n, dict(source='nested ifs depth %d' % depth, error=repr(e))
-        if last and dt > 0.05 and dt / last > 12:
-            return n, dict(source='nested ifs depth %d' % depth, what='compile time grows by x%.0f when the depth doubles' % (dt / last))
-        last = max(dt, 1e-4)
+    # nesting depth: polynomial work, counted in scanner calls (deterministic, no wall clock): the tag matcher is wrapped
+    # through the tagre() hook of the template class
+    class Counting:
+        def __init__(self, real):
+            self.real, self.calls = real, 0
+
+        def search(self, *a, **k):
+            self.calls += 1
+            return self.real.search(*a, **k)
+
+        def __getattr__(self, name):
+            return getattr(self.real, name)
+    for cls, opn, cls_ in ((HTML, '<dtml-if a>x', '</dtml-if>'), (String, '%(if a)[x', '%(if)]')):
+        for depth in (2, 4, 8, 12, 16):
+            counters = []
+
+            class T(cls):
+                def tagre(self):
+                    c = Counting(cls.tagre(self))
+                    counters.append(c)
+                    return c
+            src = opn * depth + cls_ * depth
+            n += 1
+            try:
+                T(src).cook()
+            except Exception as e:  # noqa
+                return n, dict(source='nested ifs depth %d (%s)' % (depth, cls.__name__), error=repr(e))
+            steps = sum(c.calls for c in counters)
+            if steps > 4 * (depth + 2) ** 2:
+                return n, dict(source='nested ifs depth %d (%s)' % (depth, cls.__name__), scanner_calls=steps, bound=4 * (depth + 2) ** 2,
+                               what='the number of scanner calls is not polynomial in the nesting depth (each nested block is compiled more than once)')
     return n, None
 
 
